@@ -97,6 +97,30 @@ def Row.okImmutable (r : Row) : Bool :=
   r.rets.all fun ret => !ret.reachableImmutable ||
     (!ret.srcs.isEmpty && ret.srcs.all fun s => s.copiesWhenImmutable || (r.kind == .bind && s == .reqobj))
 
+/-- Rows whose reachable-under-Immutable return sites were all understood and are non-empty; the
+    non-Immutable half additionally needs every other return site to denote text at all. -/
+def Row.yieldsText (r : Row) : Bool :=
+  r.rets.all fun ret => !ret.srcs.isEmpty && ret.srcs.all fun s => s != .unknown && (s != .reqobj || r.kind == .bind)
+
+
+/-- The binder (package binder) a method of `fiber.Bind` hands the request / response object to.
+    A new method that passes such an object on has no entry here and fails `Row.bindCovered`. -/
+def binderRowOf : String → Option String
+  | "Bind.Cookie:source" => some "binder.CookieBinding.Bind"
+  | "Bind.Form:source" => some "binder.FormBinding.Bind"
+  | "Bind.Header:source" => some "binder.HeaderBinding.Bind"
+  | "Bind.Query:source" => some "binder.QueryBinding.Bind"
+  | "Bind.RespHeader:source" => some "binder.RespHeaderBinding.Bind"
+  | _ => none
+
+/-- A `bind` row that hands a request object to a binder is covered when the table also holds that
+    binder's rows: what it extracts as key and value and the data it passes to the decoder. -/
+def Row.bindCovered (rows : List Row) (r : Row) : Bool :=
+  r.kind != .bind || !(r.rets.any fun ret => ret.srcs.contains .reqobj) ||
+    match binderRowOf r.name with
+    | some bn => [":key", ":value", ":data"].all fun sfx => rows.any fun b => b.kind == .binder && b.name == bn ++ sfx
+    | none => false
+
 /-! ## Part 2 — accessor semantics on the harness' structured requests -/
 
 /-- Configuration of the app under test (harness/cmd/c06 `config`). -/
@@ -107,6 +131,7 @@ structure Cfg where
   ph : Bool := false      -- ProxyHeader = X-Forwarded-For
   ipv : Bool := false     -- EnableIPValidation
   tp : Bool := false      -- TrustProxy on, peer not trusted
+  srv : Bool := false     -- driven through a real server over loopback TCP (peer 127.0.0.1, random port)
   deriving Repr
 
 structure Req where
@@ -335,8 +360,8 @@ def sem (c : Cfg) (q : Req) (meth : String) (key : Bytes) : Option (List Bytes) 
   | "BaseURL" => some [q.scheme c ++ b "://" ++ q.hostV c]
   | "IP" =>
     if c.trusted && c.ph then (if c.ipv then none else some [q.header (b "X-Forwarded-For")])
-    else some [b "10.0.0.7"]
-  | "Port" => some [b "4242"]
+    else some [if c.srv then b "127.0.0.1" else b "10.0.0.7"]
+  | "Port" => if c.srv then none else some [b "4242"]
   | "IPs" => if c.ipv then none else some (ipsOf (q.header (b "X-Forwarded-For")))
   | "Subdomains" => some (subdomains (q.hostV c))
   -- a multipart body is pre-parsed by fasthttp (`Request.Read` / the server loop, unless
